@@ -143,6 +143,51 @@ CHECKS["C14"] = dict(
          "float instances with cond(H) > 1e7 and integer instances overflowing TLC's 32-bit fractions are skipped and counted; "
          "optimality beyond the enumerated instances is sampled, not proved.")
 
+CHECKS["C19"] = dict(
+    cat="model_checking", ref="DESIGN.md §5 C19",
+    technique="TLA+ specs Spline.tla (Hermite/finite-difference formula, cumulative B-spline basis, exact count of "
+              "interval multiples) and Assoc.tla (timestamp association, frame/distance pairing, statistics ordering, "
+              "angle table of the 24 cube rotations) model-checked by TLC; trace validation of real chspline/bspline/"
+              "matching_time_indices/pair_id/ape/rpe/geodesic_loss calls (SplineTrace.tla, AssocTrace.tla) and replay "
+              "of TLC-written tables (SplineGen.tla, AssocGen.tla) on the real functions",
+    text="TLC checks exhaustively on integer lattices (points -2..2 / -3..3, N<=4/5, intervals 2^-1..2^-4; stamps 0..8/11, "
+         "lists <=3/<=5, thresholds 1..4): chspline interpolates at integer times, is segment-independent at knots, "
+         "reproduces lines (and parabolas on interior segments) exactly and returns (N-1)K+1 samples with K the exact "
+         "number of interval multiples in [0,1); the cumulative B-spline basis is C2 across segments, has unit speed, "
+         "reproduces constant velocity at time j+1+u, is translation-equivariant and hits the end poses with "
+         "extrapolate; nearest-stamp association is sound/complete/monotone and, for 2d-separated lists, injective, "
+         "tie-free and symmetric; frame and distance pairing equal their set definitions; Max>=RMSE>=Mean>=Min>=0; the "
+         "trace->angle table on all 576 rotation pairs. Conformance: every recorded call is validated by TLC from raw "
+         "integers (Hermite and B-spline numerators for N<=60, dims 1..6, batches, float32/64; sample counts from the "
+         "float interval's 53-bit mantissa; association, pair ids and ape/rpe translation statistics on integer "
+         "trajectories with jittered stamps; geodesic_loss in units of pi/6 for six tensor types and three reductions); "
+         "bspline continuity/constant-twist/left-equivariance/end poses, ape/rpe zero on identical trajectories, rpe "
+         "left-invariance, ape rigid/similarity invariance with align(/scale) and the statistics ordering on general "
+         "inputs are judged by TLC on integer ulp distances (tolerances >= 4x the unchanged tree). 17 code mutants "
+         "caught, 7 behaviour-preserving refactors pass.",
+    note="Trusted: TLC; exactness of IEEE arithmetic on the lattices (outputs snapped within 64 eps); for the measured "
+         "clauses the harness' distance computation and pypose's Exp/@ on the reference side (C01/C03). Association is "
+         "judged exactly only for stamp lists with gaps >= 2*max_diff (otherwise only the threshold); sample counts for "
+         "intervals within one ulp below 1/n accept both n and n+1; offset, nposes, origin are not exercised "
+         "(offset mutation is C06).")
+
+CHECKS["C05"] = dict(
+    cat="model_checking", ref="DESIGN.md §5 C05",
+    technique="TLA+ specs LieExact.tla/LieGroupMC.tla (Adj/AdjT defined by conjugation of generator matrices; laws "
+              "model-checked by TLC on the lattice); exact trace validation (LieTrace.tla) of real Adj/AdjT/Retr/+/add_; "
+              "numeric trace validation (LieNumTrace.tla) of the Exp-form identities, Jinvp and Jr against 60-digit references",
+    text="TLC checks in every lattice element of every group type that Adj(X,a) defined by Mat(X) hat(a) Mat(X)^-1 is a "
+         "generator, that AdjT is its inverse and equals Adj of the inverse, that Adj composes, and the two Exp-form "
+         "identities for pure translations. Real Adj, AdjT, Retr, X + a, pp.add and add_ (increments padded with extra "
+         "components) are run on lattice batches and TLC recomputes each result exactly; algebra + vector is checked to be "
+         "plain addition. On generic floats over magnitude cells (rotation 0..3, translation 0..30, log-scale -0.5..1.5; "
+         "float32/64) the harness measures X@Exp(a) vs Exp(Adj)@X, Exp(a)@X vs X@Exp(AdjT), Retr vs Exp(a)@X vs + vs add_, "
+         "Adj/AdjT vs conjugation of generators, Jinvp vs the finite-difference definition of d Log(Exp(h p) X)/dh and Jr "
+         "vs d Log(Exp(x)^-1 Exp(x+d)) in 60-digit arithmetic, and TLC judges the integer errors against the spec's tolerances "
+         "(1024 eps for the identities, 4 sqrt(eps) for Jinvp/Jr, Sim3 Jinvp with the documented truncation allowance).",
+    note="Trusted: TLC, mpmath expm/logm at 60 digits, exactness of IEEE arithmetic on the lattice. Log-scales with "
+         "0<|sigma|<1e-3 are left to C01 (known sim3 small-sigma band). Between sampled directions of a cell nothing is claimed.")
+
 REASON_TODO = "check not built yet in this session (planned, see DESIGN.md §5); nothing is claimed for it"
 
 
